@@ -112,7 +112,9 @@ func init() {
 		if e.pinned != nil {
 			return exact[api+"Bytes"](e, st, fn, args, retTo)
 		}
-		t := st.fresh(name, BV(8*n))
+		// the variable name carries the width: the same harness name may be used with different lengths on different paths,
+		// and one solver session must never see two sorts for one symbol
+		t := st.fresh(fmt.Sprintf("%s{%d}", name, n), BV(8*n))
 		e.recordNondet(st, name, "blob", t, nil, n)
 		return st.newByteSlice(bytesOfTerm(t)), true
 	}
